@@ -167,6 +167,9 @@ func (prom *Prometheus) RangeQuery(ctx context.Context, expr string, params Rang
 			query.result = make(chan queryResult)
 			prom.queries <- query
 			result = <-query.result
+			if verifhook.Enabled {
+				verifhook.At("promapi.slice.result", prom.name+"|"+prom.safeURI+"|"+expr+"|"+formatTime(s.Start)+"|"+formatTime(s.End))
+			}
 			results <- result
 
 			if result.err != nil {
